@@ -1,15 +1,15 @@
-(* source: pdb2sql/pdb2sqlcore.py:269-300 sha1 7cdaa9642cf57d99eda94a8e7cea20a083384437 *)
+(* source: pdb2sql/pdb2sqlcore.py:269-300 sha1 2a3902e0477e28d31b64f692aa37b22409388f95 *)
 Definition get_element_src (pdb_line_1 : string) : res string :=
  (let first_char_2 := (strip (char_at 12 pdb_line_1)) in
  (let last_char_3 := (strip (char_at 15 pdb_line_1)) in
  (if (str_nonempty first_char_2)
  then (if ((is_substring first_char_2 "0123456789"))
  then (let elem_4 := (char_at 13 pdb_line_1) in
- (Ok elem_4))
+ (Ok (strip elem_4)))
  else (if (((String.eqb first_char_2 "H")) && (str_nonempty last_char_3))
  then (let elem_5 := "H" in
- (Ok elem_5))
+ (Ok (strip elem_5)))
  else (let elem_6 := (slice 12 14 pdb_line_1) in
- (Ok elem_6))))
+ (Ok (strip elem_6)))))
  else (let elem_7 := (char_at 13 pdb_line_1) in
- (Ok elem_7))))).
+ (Ok (strip elem_7)))))).
